@@ -64,15 +64,16 @@ def _op(i, t):
             'old_value': None, 'new_value': None, 'sql': ('sql',)}
 
 
-def h_grouping(n: int, t0: int, t1: int, t2: int, t3: int) -> bool:
+def h_grouping(n: int, t0: int, t1: int, t2: int, t3: int, t4: int) -> bool:
     """
-    pre: 1 <= n <= 4 and 0 <= t0 <= 5 and 0 <= t1 <= 5 and 0 <= t2 <= 5 and 0 <= t3 <= 5
-    pre: hx.in_part(t0)
-    pre: not hx.excluded(n, t0, t1, t2, t3)
+    pre: 1 <= n <= hx.bound(4, 5) and 0 <= t0 <= 5 and 0 <= t1 <= 5 and 0 <= t2 <= 5 and 0 <= t3 <= 5
+    pre: 0 <= t4 <= (5 if hx.THOROUGH else 0)
+    pre: hx.in_part(t0, t1)
+    pre: not hx.excluded(n, t0, t1, t2, t3, t4)
     pre: not hx.kf('c18_mergeable_ops_comma')
     post: _
     """
-    types = [t0, t1, t2, t3][:n]
+    types = [t0, t1, t2, t3, t4][:n]
     ev = _evolver()
     mut = _Mutator()
     _RecResult.made = []
